@@ -719,6 +719,7 @@ fn case(g: &mut Gen) -> Outcome {
                 stores_ok += step.stores;
                 drops_ok += step.drops;
                 heap_moves_ok += step.heap_moves;
+                g.count("nodes created by successful scripts", step.created as u64);
                 match step.fault {
                     Fault::None | Fault::Panic => {}
                     f => {
@@ -798,7 +799,7 @@ pub fn check() -> Check {
     .assume("schemas are resolved with the repository's SystemDatabaseReader (read path), payloads validated with validate_payload; the walk over partitions, ownership, references, entity types, field presence and role keys is the harness's own")
     .assume("'declared role' clause applies to blueprints with a static role table (all native ones); the puppet blueprints use MethodAuthTemplate::AllowAll")
     .min_nontrivial_pct(30.0)
-    .part(Part::new("histories", 320, 8000, 1200, case))
+    .part(Part::new("histories", 800, 30_000, 1200, case))
 }
 
 #[allow(dead_code)]
